@@ -413,12 +413,14 @@ def walk_spoly(s) -> str:
 
 
 def json_identity(s) -> bool:
-    """pydantic layer, monitored per case: validate(dump(s)) == s (through JSON text and through dict)."""
+    """pydantic layer, monitored per case: validating the dumped JSON gives a model that dumps to the same JSON
+    (through text and through dict).  Compared by dump, not by ==: a field annotated Any (extension constant
+    payloads, embedded HUGRs) holds model instances before and plain dicts after the trip."""
     try:
         txt = s.model_dump_json()
         a = type(s).model_validate_json(txt)
         b = type(s).model_validate(json.loads(txt))
-        return a == s and b == s and a.model_dump_json() == txt
+        return a.model_dump_json() == txt and b.model_dump_json() == txt and a == b
     except Exception:
         return False
 
